@@ -46,6 +46,16 @@ def gen_cases(ctx):
         rest = [q for q in range(n) if q not in ts]
         gates.insert(rng.randrange(len(gates) + 1), {"g": "param", "kind": kind, "vals": [float2bits(rng.uniform(-3, 3))] * 3, "ts": ts, "cs": rng.sample(rest, rng.randrange(0, min(2, len(rest)) + 1))})
         mk(n, gates)
+    # operations without an OpenQASM form must be REFUSED: non-finite angles (no literal denotes them), plain, controlled and
+    # parametric (Pauli time evolution is documented as unimplemented: it panics with that message, C05's stated exception)
+    n0 = len(cases)
+    for bad in (float("inf"), float("-inf"), float("nan")):
+        for kind in ("P", "RX", "RY", "RZ"):
+            for nc in (0, 1):
+                g = {"g": "op", "kind": kind, "params": [float2bits(bad)], "ts": [0], "cs": [2][:nc]}
+                mk(3, rand_circuit(rng, 3, rng.randrange(0, 3), us, allow=("op",)) + [g] + rand_circuit(rng, 3, rng.randrange(0, 2), us, allow=("op",)))
+        mk(3, [{"g": "param", "kind": rng.choice(["RX", "RY", "RZ", "P"]), "vals": [float2bits(bad)] * 3, "ts": [1], "cs": [0]}])
+    for c in cases[n0:]: c["refuse"] = True
     # random circuits
     for _ in range(80 if not ctx.thorough() else 400):
         n = rng.randrange(1, 6)
@@ -78,7 +88,7 @@ def run_cases(ctx, cases):
     results = run_harness(cases, nproc=8)
     terms, idx = [], []
     for i, (c, r) in enumerate(zip(cases, results)):
-        if r.get("r") == "ok":
+        if r.get("r") == "ok" and not c.get("refuse"):
             e = r["exec"]
             terms.append("check_export_sem false %s %s %s %s [%s] %s %s" % (cq_string(r["text"]), lit_table(r["text"]), cqN(c["n"]), cqvec(c["v"]),
                          ";".join(cqf(x) for x in c["draws"]), cqbool(e["r"] == "ok"), cqvec(e["v"]) if e["r"] == "ok" else "[]")); idx.append(i)
@@ -88,7 +98,7 @@ def run_cases(ctx, cases):
     # the objects of the soundness theorem on the real text: parsed body = body_stmts 0 (lower_all circuit)
     lt, li = [], []
     for i, (c, r) in enumerate(zip(cases, results)):
-        if r.get("r") == "ok":
+        if r.get("r") == "ok" and not c.get("refuse"):
             xs = xgates(c)
             if xs is not None:
                 lt.append("check_lowering %s %s" % (cq_string(r["text"]), xs)); li.append(i)
@@ -177,6 +187,12 @@ def judge(ctx, cases, results, codes):
         b = brief(c)
         if r.get("r") in ("panic", "crash"):
             ctx.violations.append(("export panicked: %s" % r.get("msg", ""), {"case": c, "brief": b})); continue
+        if c.get("refuse"):
+            stats["refusals_expected"] = stats.get("refusals_expected", 0) + 1
+            if r.get("r") == "err": stats["refused"] = stats.get("refused", 0) + 1
+            else: ctx.violations.append(("a circuit containing an operation without an OpenQASM form (non-finite angle) was exported instead of refused",
+                                         {"case": c, "brief": b, "text": r.get("text", "")[:1500]}))
+            continue
         if r.get("r") == "err":
             ctx.violations.append(("export refused an exportable circuit: %s" % r.get("e"), {"case": c, "brief": b})); continue
         if code is None: continue
